@@ -84,7 +84,7 @@ def run(tier):
                     "`%s` emits the identifier literal `%s`, which is neither a keyword, a reserved generic/receiver name, a crate root, nor part of an absolute ::core path"
                     % (owner, lit), where=wh)
     rep.count("identifier_literals_classified", nlit)
-    rep.floor("identifier_literals_classified", 80)
+    rep.floor("identifier_literals_classified", 60)  # vacuity guard, not an exact count (94 today)
     # facade is no_std
     with open(os.path.join(REPO, "src", "lib.rs")) as f:
         src = f.read()
